@@ -1,8 +1,9 @@
 //! C01 — decoding never touches memory outside the given slice.
 //!
-//! E1 sweeps x every entry point of the door x full observation, under four placements of the
-//! input: (a) flush against a following PROT_NONE page, (b) flush after a preceding PROT_NONE
-//! page, (c)/(d) in the middle of a buffer poisoned with 0xA5 resp. 0x5A at an odd offset.
+//! E1 sweeps x every entry point of the door x observation of every accessor, under placements of
+//! the input: (a) flush against a following 68 KiB PROT_NONE zone, neighbours poisoned 0xA5,
+//! (b) flush after a preceding PROT_NONE zone, neighbours poisoned 0x5A, and in the thorough tier
+//! (c)/(d) in the middle of a buffer poisoned with 0xA5 resp. 0x5A at offsets 1 and 3.
 //! Oracle: worker survives (guard pages + std UB precondition checks of the checked build),
 //! every slice handed out lies inside the input, the canonical observation text is identical
 //! under all four placements.
@@ -23,10 +24,12 @@ impl Check for C01 {
     }
     fn rule(&self, tier: Tier) -> String {
         format!(
-            "alphabet/bound: {}. Each case = (door, byte string) is decoded through every entry point of the door with full observation under 4 placements (guard page behind, guard page in front, offset 1 and 3 inside 0xA5 / 0x5A poison). \
+            "alphabet/bound: {}. Each case = (door, byte string) is decoded through every entry point of the door, every accessor/conversion/iterator is called, under {} placements (68 KiB guard zone behind + 0xA5 neighbours, guard zone in front + 0x5A neighbours{}). \
              oracle: no fatal signal (PROT_NONE pages around the input; SIGABRT from unsafe-precondition checks of the checked build), every returned slice inside the input, observation text (slices as (offset,len)) identical across placements. \
              distinct = distinct (door, bytes) by 64-bit hash; non-trivial = some entry point returned Ok or the input has >= 20 bytes.",
-            sweep::describe_bounds(tier)
+            sweep::describe_bounds(tier),
+            if tier.is_thorough() { 4 } else { 2 },
+            if tier.is_thorough() { ", offset 1 and 3 inside 0xA5 / 0x5A poison" } else { "" }
         )
     }
     fn assumptions(&self, _tier: Tier) -> Vec<String> {
@@ -45,16 +48,24 @@ impl Check for C01 {
         }
     }
     fn expect_reach(&self, _tier: Tier) -> Vec<String> {
-        vec!["ok:SlicedPacket::from_ethernet".into(), "ok:LaxSlicedPacket::from_ether_type".into(), "ok:Ipv6ExtensionsSlice::from_slice_lax".into(), "err:LinuxSllHeader::read".into(), "ok:LinuxSllHeader::read".into()]
+        vec!["ok:SlicedPacket::from_ethernet".into(), "ok:LaxSlicedPacket::from_ethernet".into(), "ok:Ipv6ExtensionsSlice::from_slice".into(), "err:LinuxSllHeader::read".into(), "ok:LinuxSllHeader::read".into()]
     }
     fn run_unit(&self, tier: Tier, u: u64, ctx: &mut Ctx) {
+        let thorough = tier.is_thorough();
         sweep::run_unit(tier, u, ctx, &|door, bytes, _shape, case| {
             ARENA.with(|a| {
                 let mut texts: Vec<String> = vec![];
-                for placement in 0..4 {
+                let placements = if thorough { 4 } else { 2 };
+                for placement in 0..placements {
                     let b: &[u8] = match placement {
-                        0 => a.place_end(bytes),
-                        1 => a.place_start(bytes),
+                        0 => {
+                            a.poison_neighbours(bytes.len(), 0xA5);
+                            a.place_end(bytes)
+                        }
+                        1 => {
+                            a.poison_neighbours(bytes.len(), 0x5A);
+                            a.place_start(bytes)
+                        }
                         2 => a.place_mid(bytes, 1, 0xA5),
                         _ => a.place_mid(bytes, 3, 0x5A),
                     };
@@ -72,7 +83,7 @@ impl Check for C01 {
                     }
                     texts.push(std::mem::take(&mut s.text));
                 }
-                for p in 1..4 {
+                for p in 1..placements {
                     if texts[p] != texts[0] {
                         // find the entry point section that differs
                         let (a0, ap) = (&texts[0], &texts[p]);
